@@ -31,7 +31,7 @@ ASSUMPTIONS = [
 def plan(tier):
     return {"shards": 16, "timeout": 1200 if tier == "quick" else 5 * 3600,
             "required_monitors": ["row-multiset", "variable-values", "geometry", "key-set", "meta",
-                                  "derived-variables"],
+                                  "derived-variables", "reload-after-restricted-load"],
             "required_tags": ["ghost-blocks", "boundary-blocks", "empty-level", "ndim1", "ndim2", "ndim3",
                               "multi-cpu", "key16", "nout-minus-one", "grav", "rt"]}
 
@@ -149,5 +149,20 @@ def run_case(case, ctx, res):
                         spec=iom.spec_brief(spec))
         if ok and spec["ndim"] >= 2 and type(mesh["position"]).__name__ != "Vector":
             res.violate("vector-not-assembled", "position is not a Vector", spec=iom.spec_brief(spec))
+        # the same statement for a dataset object that has been used before: a load without selection after a
+        # restricted load (level cap, variable subset, cpu_list) still returns every leaf
+        if ok and case.get("i", case.get("fixed", 0)) % 3 == 0:
+            from ..util import attempt
+            lv = max(1, min(o.level for o in model.octs))
+            prior = [{"select": {"mesh": {"level": (lambda l, lv=lv: l <= lv)}}}, {"select": {"mesh": ["density"] if "density" in spec["hydro"] else [spec["hydro"][0]]}},
+                     {"cpu_list": [1]}][case.get("i", case.get("fixed", 0)) // 3 % 3]
+            with iom.quiet():
+                o1 = attempt(lambda: ds.load(**prior))
+                o2 = attempt(lambda: ds.load())
+            res.count("reload-after-restricted-load")
+            if not o2.ok:
+                res.violate("load-raised", f"load() after load({list(prior)}) {o2.describe()}", spec=iom.spec_brief(spec))
+            elif o1.ok:
+                iom.check_mesh(res, osy, model, ds["mesh"], ds.meta, exp, what=f"load() after load({list(prior)}) on the same dataset")
     finally:
         shutil.rmtree(path, ignore_errors=True)
